@@ -16,6 +16,10 @@ const PALETTE: &[&str] = &[
 /// A string of exactly `len` bytes of UTF-8.
 pub fn make_string(len: usize, kind: u8, salt: u8) -> String {
     let mut s = String::with_capacity(len);
+    // now and then the string starts with U+FEFF, which a receiver must keep [MQTT-1.5.4-3]
+    if salt % 16 == 5 && len >= 3 {
+        s.push('\u{feff}');
+    }
     let mut i = salt as usize;
     while s.len() < len {
         let c = match kind % 3 {
